@@ -2,11 +2,11 @@ CONSTANTS
   Senders = {"s1", "s2"}
   Script <- ScriptA
   Names = {"a", "b"}
-  MaxCliOps = 3
-  FaultKinds = {"garbage", "oversize", "trunc"}
-  AllowZZ = TRUE
+  MaxCliOps = 2
+  FaultKinds = {"garbage"}
+  AllowZZ = FALSE
   AllowEarly = TRUE
-  AnyName = TRUE
+  AnyName = FALSE
   KeepHist = FALSE
 INIT Init
 NEXT Next
